@@ -4,7 +4,7 @@ C08-POS  template-symbolic pipeline with symbolic token *positions*: the real sc
          column) of the tokens of interest are replaced by free symbolic integers; after the real parse + transform with
          include_position=True every object / keyword must carry exactly the position of its keyword token and value
          positions in source order (object blocks, simple and multi-valued attributes, repeated keys, CONFIG, PROJECTION,
-         key-value blocks, POINTS x2, PATTERN, root-level lists).
+         key-value blocks, POINTS x3, PATTERN, root-level lists).
 C08-LOC  error -> position lookup: decided in C07 (C07-NUM / C07-LIST / C07-DEEP assert the reported line/column of every
          message: the offending keyword's, or the enclosing block opener's for object-level errors); re-run here on the
          nested-document family.
@@ -34,6 +34,7 @@ TEXT = '''MAP
     FEATURE
       POINTS 1 1 END
       POINTS 2 2 END
+      POINTS 5 5 END
     END
     CLASS
       STYLE
@@ -53,7 +54,7 @@ END'''
 TOKS = [("map", "MAP", 0), ("name", "NAME", 0), ("namev", '"x"', 0), ("extent", "EXTENT", 0), ("e1", "1", 0), ("e2", "2", 0), ("e3", "3", 0), ("e4", "4", 0),
         ("cfg1", "CONFIG", 0), ("cfg1k", '"A"', 0), ("cfg1v", '"b"', 0), ("cfg2", "CONFIG", 1), ("proj", "PROJECTION", 0), ("projv", '"init=epsg:4326"', 0),
         ("web", "WEB", 0), ("md", "METADATA", 0), ("mdk", '"k"', 0), ("mdv", '"v"', 0), ("layer", "LAYER", 0), ("pr1", "PROCESSING", 0), ("pr1v", '"a=1"', 0),
-        ("pr2", "PROCESSING", 1), ("pr2v", '"b=2"', 0), ("feature", "FEATURE", 0), ("pt1", "POINTS", 0), ("pt2", "POINTS", 1), ("cls", "CLASS", 0), ("style", "STYLE", 0),
+        ("pr2", "PROCESSING", 1), ("pr2v", '"b=2"', 0), ("feature", "FEATURE", 0), ("pt1", "POINTS", 0), ("pt2", "POINTS", 1), ("pt3", "POINTS", 2), ("cls", "CLASS", 0), ("style", "STYLE", 0),
         ("pattern", "PATTERN", 0), ("offset", "OFFSET", 0), ("offa", "a", 0), ("w1", "WIDTH", 0), ("w2", "WIDTH", 1), ("w2v", "7", 0), ("cls2", "CLASS", 1), ("name2", "NAME", 1)]
 
 BODY = '''
@@ -75,7 +76,7 @@ lp = d["layers"][0]["__position__"]
 ok = ok and at(lp, l_layer, c_layer) and at(lp["processing"][0], l_pr1, c_pr1) and at(lp["processing"][1], l_pr2, c_pr2)
 ok = ok and lp["processing"][0]["values"] == [(l_pr1v, c_pr1v)] and lp["processing"][1]["values"] == [(l_pr2v, c_pr2v)]
 fp = d["layers"][0]["features"][0]["__position__"]
-ok = ok and at(fp, l_feature, c_feature) and at(fp["points"][0], l_pt1, c_pt1) and at(fp["points"][1], l_pt2, c_pt2)
+ok = ok and at(fp, l_feature, c_feature) and at(fp["points"][0], l_pt1, c_pt1) and at(fp["points"][1], l_pt2, c_pt2) and len(fp["points"]) == 3 and at(fp["points"][2], l_pt3, c_pt3)
 cp = d["layers"][0]["classes"][0]
 ok = ok and at(cp["__position__"], l_cls, c_cls)
 sp = cp["styles"][0]["__position__"]
